@@ -154,8 +154,10 @@ def compile_doc(uri, doc, idc):
     return {"pickles": ps, "idc": _GEN.n}
 
 
-def events(ps, pa, pp, srcs):
+def events(ps, pa, pp, stop, srcs):
     ge = GherkinEvents(GherkinEvents.Options(print_source=ps, print_ast=pa, print_pickles=pp))
+    if stop:
+        ge.parser.stop_at_first_error = True
     # keep K1 out of the comparison: the stream API hands the text to Parser.parse(str)
     orig = ge.parser.parse
     ge.parser.parse = lambda s, m=None: orig(source_arg(s), m)
